@@ -449,6 +449,7 @@ def rule_shadowing(ctx):
                 if c[0] == "iflet" and c[3] and render(c[1]).startswith("Some(") and sgrep.match(sgrep.pattern("__e.add_declaration(__a, __b, __c)"), c[2], {}, lenv):
                     okr = True
         ctx.check(R, "parameters/collision-is-an-error", okr, render(rets[0])[:120] if rets else "no error return", site(UV, tf))
+    eval_parameter_list(ctx, R)
     eu = find_fn(UV, "ensure_unique_variables")
     if eu is not None:
         t = render(eu["body"]).replace(" ", "")
@@ -457,6 +458,44 @@ def rule_shadowing(ctx):
         envn = [k for k, v in sgrep.lets(eu["body"]).items() if len(pve) == 3 and (sgrep.match(sgrep.pattern("__p.try_into()?"), v, {"__p": pve[1]}) or sgrep.match(sgrep.pattern("DeclarationEnvironment::try_from(__p)?"), v, {"__p": pve[1]}) or sgrep.match(sgrep.pattern("TryFrom::try_from(__p)?"), v, {"__p": pve[1]}))]
         oke = len(envn) == 1 and sgrep.has(eu["body"], "visit_statement(__s, __e, __r)", None, {"__s": pve[0], "__e": envn[0], "__r": pve[2]})
         ctx.check(R, "ensure_unique_variables/parameters-outermost", oke, t[:200], site(UV, eu))
+
+
+def eval_parameter_list(ctx, R):
+    """`Parameters::new` by evaluation: the parameter list handed to the uniqueness pass holds one name per declared
+    parameter, in order - a name that is declared twice is there twice (that is what the collision error is raised
+    from)."""
+    import passeval
+    from finfun import NONE, S, Unsupported
+    from passeval import Panic, Sink
+
+    PF = "program_structure/src/control_flow_graph/parameters.rs"
+    try:
+        w = passeval.PassWorld([PF], PF)
+    except Exception as ex:  # noqa: BLE001
+        return ctx.missing(R, "control_flow_graph/parameters.rs", str(ex))
+    w.lenient_opaque = True
+    key = ("Parameters", "new")
+    if key not in w.methods or "Parameters" not in w.structs:
+        return ctx.missing(R, "Parameters::new")
+    fn = w.methods[key][0]
+    w.stubs = {"from_string": lambda a: ("K", "variable-name", (a[0],))}
+    bad = None
+    n = 0
+    for names in ((), ("a",), ("a", "b", "c"), ("a", "a", "b"), ("n", "m", "m"), ("c", "d", "c"), ("b", "a"), ("x", "x", "x", "y", "x")):
+        try:
+            res = w.call_fn(fn, [("L", names), NONE, ("O", "location", ())])
+        except (Unsupported, Panic) as u:
+            return ctx.missing(R, "Parameters::new/evaluation", "cannot be evaluated (fail closed): %s" % u)
+        n += 1
+        got = None
+        if isinstance(res, tuple) and len(res) > 2 and res[0] == "S" and res[1] == "Parameters":
+            for f_, v_ in zip(w.structs["Parameters"], res[2]):
+                if isinstance(v_, Sink) or (isinstance(v_, tuple) and v_ and v_[0] == "L"):
+                    items = list(v_.items) if isinstance(v_, Sink) else list(v_[1])
+                    got = [x[2][0] if isinstance(x, tuple) and len(x) > 2 and x[0] == "K" and x[2] else x for x in items]
+        if got != list(names):
+            bad = bad or "declared (%s): the list holds %s" % (", ".join(names), got)
+    ctx.check(R, "parameters/one-entry-per-declared-parameter", bad is None, bad or "%d parameter lists: one name per declared parameter, in order, repetitions included" % n, site(PF, fn))
 
 
 def rule_for_scope(ctx):
